@@ -73,6 +73,9 @@ def plan(tier, seed):
             for i in range(n)]
     jobs.append({'space': 'literals-together', 'tier': tier, 'weight': 50})
     jobs.append({'space': 'debuglog', 'tier': tier, 'weight': 50})
+    for i in range(8):
+        jobs.append({'space': 'mappings', 'tier': tier, 'shard': i, 'of': 8,
+                     'weight': 400})
     if BOUNDS[tier].get('extra_leaves'):
         jobs += [{'space': 'trees-extra', 'check': i, 'tier': tier,
                   'weight': 3} for i in range(n)]
@@ -90,6 +93,8 @@ def run(job, seed):
         return run_literals(acc, enf)
     if space == 'debuglog':
         return run_debuglog(acc, enf)
+    if space == 'mappings':
+        return run_mappings(acc, enf, job)
     left, right, targets = checks()[job['check']]
     if space == 'trees':
         T = _trees.setdefault('std', Trees())
@@ -132,6 +137,58 @@ def run(job, seed):
     if n != (T.count_mappings_upto(cmax)):
         raise core.HarnessError('tree count %d != recurrence' % n)
     acc.sample(space, {'check': text, 'creds': tree})
+    return acc.result()
+
+
+def run_mappings(acc, enf, job):
+    """Credentials may be any mutable mapping (RequestContext.to_policy_
+    values() returns one that is not a dict).  Every tree of <= 2 containers:
+    the decision with the top-level mapping - and with every nested mapping
+    as well - replaced by a non-dict Mapping equals the decision with plain
+    dicts."""
+    import collections
+    import types
+
+    def wrap(v, deep):
+        if isinstance(v, dict):
+            inner = {k: (wrap(x, deep) if deep else x) for k, x in v.items()}
+            return collections.UserDict(inner) if not deep or v is top \
+                else types.MappingProxyType(inner)
+        if isinstance(v, list) and deep:
+            return [wrap(x, deep) for x in v]
+        return v
+    T = Trees()
+    trees = list(T.mappings_upto(2))
+    cks = checks()
+    for ci, (left, right, targets) in enumerate(cks):
+        if ci % job['of'] != job['shard']:
+            continue
+        text = '%s:%s' % (left, right)
+        world.set_rules(enf, {'p': text})
+        for tree in trees:
+            top = tree
+            for target in targets[:2]:
+                acc.ev()
+                plain = world.decide(enf, 'p', dict(target), tree)
+                for deep in (False, True):
+                    acc.ev()
+                    got = world.decide(enf, 'p', dict(target),
+                                       wrap(tree, deep))
+                    if got != plain:
+                        acc.violation(
+                            'mappings|%s|%s' % (
+                                'nested' if deep else 'top',
+                                'allows' if got == ('ok', True) else 'denies'
+                                if got[0] == 'ok' else got[1]),
+                            '%s against %r target %r: %r with plain dicts, '
+                            '%r with %s non-dict mappings' %
+                            (text, tree, target, plain, got,
+                             'nested' if deep else 'a top-level'),
+                            {'check': text, 'creds': tree, 'target': target},
+                            plain, got, 'mappings')
+                acc.outcome('allow' if plain == ('ok', True) else 'deny')
+            acc.case('mappings', True)
+    acc.sample('mappings', {'trees': len(trees)})
     return acc.result()
 
 
